@@ -112,7 +112,7 @@ class C11(Prop):
         gens = []
         for i, ln in enumerate(lines):
             gens.append({"kind": "doc", "tree": ln["tree"], "args": [[a["n"], "".join(map(chr, a["v"]))] for a in ln["args"]],
-                         "prefix": ["lib", None, "a/b"][i % 3], "inclver": i % 2 == 0, "later": i % 5 == 0})
+                         "prefix": ["lib", None, "a/b"][i % 3], "inclver": i % 2 == 0, "later": i % 5 == 0, "prerender": i % 10 == 0})
         return gens
 
     def gens_random(self, tier, rnd):
@@ -138,7 +138,8 @@ class C11(Prop):
             args = rnd.choice([[], [["lang", "en"]], [["id", "y"], ["lang", "en"]], [["class", "c d"]],
                                [["data-level", 0], ["lang", ""]], [["lang", ""], ["data-n", 0.0], ["id", "z"]]])
             gens.append({"kind": "doc", "tree": {"k": "root", "c": top}, "args": args,
-                         "prefix": rnd.choice(["lib", None, "a/b", "x"]), "inclver": rnd.random() < 0.5, "later": rnd.random() < 0.3})
+                         "prefix": rnd.choice(["lib", None, "a/b", "x"]), "inclver": rnd.random() < 0.5, "later": rnd.random() < 0.3,
+                         "prerender": rnd.random() < 0.5})
         leaf = lambda k: {"k": k, "c": []}
         # documents whose dependencies emit no markup at all: the listing must still name them
         for deps in (["d0"], ["d6"], ["d0", "d6"], ["d0", "d1"]):
@@ -160,7 +161,14 @@ class C11(Prop):
         kw = {k: v for k, v in g["args"]}
         if g.get("later") and kids:
             doc = H.HTMLDocument(**kw)
-            doc.append(*kids)
+            if g.get("prerender"):
+                # a document object that has already been rendered (same settings) before its content arrives in two steps
+                doc.append(*kids[:1])
+                doc.render(lib_prefix=g["prefix"], include_version=g["inclver"])
+                if kids[1:]:
+                    doc.append(*kids[1:])
+            else:
+                doc.append(*kids)
         else:
             doc = H.HTMLDocument(*kids, **kw)
         res = doc.render(lib_prefix=g["prefix"], include_version=g["inclver"])
